@@ -281,7 +281,8 @@ class NetAddr():
         clump = []
         acc_size = 16  # Bundle prefix + Timetag bytes.
         for s, e in elist:
-            if acc_size + s >= size:
+            s += 4  # Element size bytes.
+            if clump and acc_size + s >= size:
                 res.append(clump)
                 clump = []
                 acc_size = 16  # Bundle prefix + Timetag bytes.
